@@ -22,6 +22,8 @@ from .absint import Interp
 from .report import Finding
 
 WHAT = {
+    "K7": "every scenario starts with empty capture buffers (stdout, stderr, log)",
+    "K8": "the captured-output report contains each stream exactly when that stream's own switch is on",
     "K2": "CaptureController: for every start/stop sequence and switch combination the real streams are back after stop; disabled switches leave their stream alone",
     "K4": "log capture: level saved before it is changed; abandon removes the handler, re-adds removed handlers, restores the level",
     "K6": "captured log records are never dropped implicitly (flush of the buffering handler is a no-op override)",
@@ -149,3 +151,153 @@ def check_log_capture(chk, ix):
             chk.ok("K6", {"flush": "overridden, keeps the buffer"}, nontrivial_key="flush")
     else:
         chk.ok("K6", {"base": ext}, nontrivial_key="no buffering base")
+
+
+def check_log_level_roundtrip(chk, ix):
+    """K4 by evaluation: inveigle() then abandon() on a root-logger token, for every original level (NOTSET = 0 included)
+    and both settings of logging_clear_handlers: level and handler list are what they were before."""
+    chk.rule("K4", WHAT["K4"])
+    lc = ix.cls("behave.log_capture:LoggingCapture")
+    inv, ab = lc.lookup("inveigle"), lc.lookup("abandon")
+    for level0 in (0, 10, 30):
+        for clear in (False, True):
+            st = State()
+            st.frames = []
+            h1 = st.alloc(HObj("HandlerTok", {}, label="user handler"))
+            handlers = st.alloc(HObj("list", kind="list", items=[h1], label="root handlers"))
+            root = st.alloc(HObj("LoggerTok", {"level": level0, "handlers": handlers}, label="root logger"))
+
+            def add_handler(i, s_, a, k, n):
+                lst = s_.wobj(s_.obj(a[0]).fields["handlers"])
+                if a[1] not in lst.items:
+                    lst.items = list(lst.items) + [a[1]]
+                return [(s_, "val", None)]
+
+            def remove_handler(i, s_, a, k, n):
+                lst = s_.wobj(s_.obj(a[0]).fields["handlers"])
+                lst.items = [x for x in lst.items if x != a[1]]
+                return [(s_, "val", None)]
+
+            def set_level(i, s_, a, k, n):
+                s_.wobj(a[0]).fields["level"] = a[1]
+                return [(s_, "val", None)]
+            stubs = {"logging.getLogger": lambda i, s_, a, k, n: [(s_, "val", root)], "LoggerTok.addHandler": add_handler,
+                     "LoggerTok.removeHandler": remove_handler, "LoggerTok.setLevel": set_level}
+            it = Interp(ix, stubs=stubs, name="LoggingCapture inveigle/abandon")
+            it.int_sat = 1000
+            it.list_cap = 100
+            it.stubs["logging.Logger.manager.loggerDict.values"] = lambda i, s_, a, k, n: [(s_, "val", ())]
+            cfg = st.alloc(HObj("ConfigStub", {"logging_clear_handlers": clear}, label="config"))
+            me = st.alloc(HObj(lc, {"config": cfg, "old_handlers": st.alloc(HObj("list", kind="list", items=[])), "old_level": None,
+                                    "level": 20, "buffer": st.alloc(HObj("list", kind="list", items=[]))}, label="log capture"))
+            cur = [st]
+            for fn in (inv, ab):
+                nxt = []
+                for s_ in cur:
+                    for (s2, k, v) in it.call_function(s_, fn, [], {}, None, self_val=me):
+                        if k != "val":
+                            raise AnalysisError("LoggingCapture.%s not evaluable: %r" % (fn.name, v))
+                        nxt.append(s2)
+                cur = nxt
+            chk.absorb(it)
+            for s_ in cur:
+                chk.instance("K4")
+                lvl = s_.obj(root).fields["level"]
+                hs = list(s_.obj(s_.obj(root).fields["handlers"]).items)
+                if lvl == level0 and hs == [h1]:
+                    chk.ok("K4", {"root_level_before": level0, "logging_clear_handlers": clear, "after inveigle+abandon": "level and handlers as before"},
+                           nontrivial_key=(level0, clear))
+                else:
+                    chk.fail(Finding("K4", ab.fullname, "level %r -> %r, handlers %s" % (level0, lvl, [s_.obj(h).label for h in hs if isinstance(h, Ref)]),
+                                     "after inveigle() and abandon() with the root logger at level %r and logging_clear_handlers=%s the root level is "
+                                     "%r and its handlers are %s; expected level %r and the user's handler only (the capture level leaks into "
+                                     "the rest of the run)" % (level0, clear, lvl, [s_.obj(h).label for h in hs if isinstance(h, Ref)], level0),
+                                     file=ab.file, line=ab.lineno, path=list(s_.path)))
+
+
+def check_fresh_buffers(chk, ix):
+    """K7: every scenario starts with empty capture buffers: setup_capture creates new buffers (or empties the ones it keeps)."""
+    chk.rule("K7", WHAT["K7"])
+    cc = ix.cls("behave.capture:CaptureController")
+    su = cc.lookup("setup_capture")
+    made = []
+
+    def new_buffer(kind):
+        def stub(i, s_, a, k, n):
+            r = s_.alloc(HObj(kind, {"emptied": False}, label="%s#%d" % (kind, len(made) + 1)))
+            made.append(r)
+            return [(s_, "val", r)]
+        return stub
+
+    def emptied(i, s_, a, k, n):
+        s_.wobj(a[0]).fields["emptied"] = True
+        return [(s_, "val", None)]
+    stubs = {"StringIO": new_buffer("StringIOTok"), "six.StringIO": new_buffer("StringIOTok"), "io.StringIO": new_buffer("StringIOTok"),
+             "LoggingCapture": new_buffer("LogCapTok"),
+             "LogCapTok.inveigle": lambda i, s_, a, k, n: [(s_, "val", None)]}
+    for m in ("truncate", "clear", "reset", "flush_buffer"):
+        stubs["LogCapTok." + m] = emptied
+        stubs["StringIOTok." + m] = emptied
+    stubs["StringIOTok.seek"] = lambda i, s_, a, k, n: [(s_, "val", None)]
+    it = Interp(ix, stubs=stubs, name="CaptureController.setup_capture")
+    st = State()
+    st.frames = []
+    cfg = st.alloc(HObj("ConfigStub", {"stdout_capture": True, "stderr_capture": True, "log_capture": True}, label="config"))
+    ctl = st.alloc(HObj(cc, {"config": cfg, "stdout_capture": None, "stderr_capture": None, "log_capture": None,
+                             "old_stdout": None, "old_stderr": None}, label="controller"))
+    ctx = st.alloc(HObj("ContextTok", {}, open=True, label="context"))
+    cur = st
+    seen = {}
+    for round_ in (1, 2):
+        outs = it.call_function(cur, su, [ctx], {}, None, self_val=ctl)
+        if len(outs) != 1 or outs[0][1] != "val":
+            raise AnalysisError("setup_capture not evaluable: %r" % ([(k, v) for _, k, v in outs][:3],))
+        cur = outs[0][0]
+        for name in ("stdout_capture", "stderr_capture", "log_capture"):
+            v = cur.obj(ctl).fields.get(name)
+            if round_ == 1:
+                seen[name] = v
+                if isinstance(v, Ref):
+                    cur.wobj(v).fields["emptied"] = False       # the scenario then writes into it
+            else:
+                chk.instance("K7")
+                fresh = isinstance(v, Ref) and (not isinstance(seen[name], Ref) or v.oid != seen[name].oid or cur.obj(v).fields.get("emptied") is True)
+                if fresh:
+                    chk.ok("K7", {"buffer": name, "second scenario": "new or emptied buffer"}, nontrivial_key=name)
+                else:
+                    chk.fail(Finding("K7", su.fullname, "%s is reused as it is" % name, "setup_capture for the next scenario keeps the %s buffer of "
+                                     "the previous one without emptying it: a failure report shows output captured in earlier scenarios" % name,
+                                     file=su.file, line=su.lineno))
+    chk.absorb(it)
+
+
+def check_captured_switches(chk, ix):
+    """K8: what the controller reports as captured follows the three capture switches one by one."""
+    chk.rule("K8", WHAT["K8"])
+    cc = ix.cls("behave.capture:CaptureController")
+    prop = cc.lookup("captured")
+    for out_on, err_on, log_on in itertools.product((True, False), repeat=3):
+        got = []
+        stubs = {"Captured": lambda i, s_, a, k, n: (got.append(tuple(a) + tuple(k.get(x) for x in ("stdout", "stderr", "log_output") if x in k)), [(s_, "val", "CAPTURED")])[1],
+                 "BufTok.getvalue": lambda i, s_, a, k, n: [(s_, "val", s_.obj(a[0]).fields["content"])],
+                 "_text": lambda i, s_, a, k, n: [(s_, "val", a[0])], "text": lambda i, s_, a, k, n: [(s_, "val", a[0])]}
+        it = Interp(ix, stubs=stubs, name="CaptureController.captured")
+        st = State()
+        st.frames = []
+        cfg = st.alloc(HObj("ConfigStub", {"stdout_capture": out_on, "stderr_capture": err_on, "log_capture": log_on}, label="config"))
+        bufs = {n: st.alloc(HObj("BufTok", {"content": n.upper()}, label=n)) for n in ("out", "err", "log")}
+        ctl = st.alloc(HObj(cc, {"config": cfg, "stdout_capture": bufs["out"], "stderr_capture": bufs["err"], "log_capture": bufs["log"],
+                                 "old_stdout": None, "old_stderr": None}, label="controller"))
+        outs = it.call_function(st, prop, [], {}, None, self_val=ctl)
+        chk.absorb(it)
+        chk.instance("K8")
+        if len(outs) != 1 or outs[0][1] != "val" or len(got) != 1 or len(got[0]) != 3:
+            raise AnalysisError("CaptureController.captured not evaluable: %r / %r" % ([(k, v) for _, k, v in outs][:3], got))
+        want = ("OUT" if out_on else None, "ERR" if err_on else None, "LOG" if log_on else None)
+        if got[0] == want:
+            chk.ok("K8", {"switches": {"stdout": out_on, "stderr": err_on, "log": log_on}, "captured": list(want)}, nontrivial_key=(out_on, err_on, log_on))
+        else:
+            chk.fail(Finding("K8", prop.fullname, "stdout=%s stderr=%s log=%s -> %r" % (out_on, err_on, log_on, got[0]),
+                             "with stdout_capture=%s, stderr_capture=%s, log_capture=%s the controller reports %r as captured; expected %r "
+                             "(each stream is reported exactly when its own switch is on: otherwise swapped-away output is lost)" % (
+                                 out_on, err_on, log_on, got[0], want), file=prop.file, line=prop.lineno))
